@@ -44,24 +44,25 @@ type Mode struct {
 
 // Profile is drawn per run (swarm style).
 type Profile struct {
-	Replicas   int
-	Skews      []time.Duration
-	LogKeyKind string
-	Deadline   time.Duration
-	Mask       bool
-	Mapper     bool
-	MaxOps     int
-	Conc       int
-	MaxGet     int64
-	Align      bool
-	Fault      map[string]int // enabled fault kinds -> weight
-	SeqWeight  int
-	Quota      bool
-	SlowReads  bool   // some clients read responses slowly (response writes are seams)
-	Prefill    int    // external mode: submissions made (honestly, through the front end) before the run proper starts
-	CacheKind  string // external mode: noop | lru | lru-ttl | chaos
-	CacheSize  int
-	CacheTTL   time.Duration
+	Replicas        int
+	Skews           []time.Duration
+	LogKeyKind      string
+	Deadline        time.Duration
+	Mask            bool
+	Mapper          bool
+	MaxOps          int
+	Conc            int
+	MaxGet          int64
+	Align           bool
+	Fault           map[string]int // enabled fault kinds -> weight
+	SeqWeight       int
+	Quota           bool
+	SlowReads       bool   // some clients read responses slowly (response writes are seams)
+	StoreIgnoresCtx bool   // external mode: the chain store finishes lookups whatever happens to the request's context
+	Prefill         int    // external mode: submissions made (honestly, through the front end) before the run proper starts
+	CacheKind       string // external mode: noop | lru | lru-ttl | chaos
+	CacheSize       int
+	CacheTTL        time.Duration
 }
 
 type replica struct {
@@ -455,6 +456,9 @@ func (w *World) genRead() *Op {
 			}
 			op.A = int64(t.Range(0, int(hi)))
 			op.B = op.A + int64(t.Range(0, int(hi-op.A)+2))
+			if w.prof.Prefill > 0 && hi >= 9 && hi < n && t.Chance(1, 2) {
+				op.A, op.B = int64(t.Range(0, 2)), hi // a long batch over a log that already holds entries
+			}
 		}
 		op.Query = q("start", i64(op.A), "end", i64(op.B))
 		return op
